@@ -17,7 +17,10 @@ RULE = ("Template ASTs from a TAL grammar (elements incl. void and tal:-namespac
         "nothing, default, repeat variables, attrs) x contexts (strings with metacharacters, ints, None, empty / "
         "non-empty lists, dicts, zero-argument callables); a METAL mode with a library macro, define-slot and "
         "use-macro / fill-slot. Each AST is serialised to HTML for simpleTAL and interpreted directly by the reference "
-        "tree-walking evaluator; the outputs are compared as token streams. On every compiled program: scopes nest "
+        "tree-walking evaluator; the outputs are compared as token streams. The same compiled template (and library) is "
+        "expanded a second time with a fresh copy of the context (the output must not change) and a third time with "
+        "other data (optional item keys gone, the two lists swapped), again judged against the evaluator: an expansion "
+        "leaves nothing behind in the compiled program. On every compiled program: scopes nest "
         "like brackets and every end-tag symbol of a CONDITION / REPEAT / CONTENT / USE_MACRO / DEFINE_SLOT command "
         "is the ENDTAG_ENDSCOPE closing the scope opened for that element. Non-trivial: an element with >= 2 TAL "
         "commands, a repeat over >= 2 items, or a macro with a filled slot; distinct by case hash.")
@@ -126,7 +129,37 @@ def expand_real(case, allow_python=0):
         ctx.addGlobal("lib", lib)
     out = io.StringIO()
     tpl.expand(ctx, out)
+    # the same compiled template (and library) expanded once more with a fresh context: an expansion leaves nothing behind
+    # in the compiled programs (what is compiled once is expanded for every request)
+    ctx2 = make_context(case["ctx"], allow_python)
+    if case["mode"] == "metal":
+        ctx2.addGlobal("lib", lib)
+    out2 = io.StringIO()
+    tpl.expand(ctx2, out2)
+    if out2.getvalue() != out.getvalue():
+        probs = probs + ["second expansion of the same compiled template differs: %r vs %r" % (out2.getvalue()[:200], out.getvalue()[:200])]
+    # ... and a third time with OTHER data (see variant_ctx): judged against the reference like the first
+    ctx3 = make_context(variant_ctx(case["ctx"]), allow_python)
+    if case["mode"] == "metal":
+        ctx3.addGlobal("lib", lib)
+    out3 = io.StringIO()
+    tpl.expand(ctx3, out3)
+    expand_real.third = out3.getvalue()
     return text, out.getvalue(), probs, ctx
+
+
+def variant_ctx(ctx):
+    """the same context with the optional item key gone (paths that found a value now fall through to their alternatives)
+    and the two lists swapped"""
+    import copy
+    c = copy.deepcopy(ctx)
+    for k in ("lst", "lst2"):
+        for it in c.get(k, []):
+            if isinstance(it, dict):
+                it.pop("k_opt", None)
+    if isinstance(c.get("lst"), list) and isinstance(c.get("lst2"), list):
+        c["lst"], c["lst2"] = c["lst2"], c["lst"]
+    return c
 
 
 def expand_model(case):
@@ -214,7 +247,8 @@ def check_case(case, ctx):
     ctx.sample({"template": text[:600], "output": real[:300]}, cls=case["mode"] + str(min(multi, 1)))
     fails = []
     if probs:
-        fails.append(Fail("program-structure", "compiled program of %r is not well-formed: %s" % (text[:200], probs[0])))
+        fails.append(Fail("second-expansion" if probs[0].startswith("second expansion") else "program-structure",
+                          "compiled program of %r is not well-formed: %s" % (text[:200], probs[0])))
     want = talgen.model_tokens(expand_model(case))
     got = talgen.tokenise(real)
     if got != want:
@@ -222,6 +256,15 @@ def check_case(case, ctx):
         fails.append(Fail("output-differs:" + _classify(case, got, want, i),
                           "template %r: token %d is %r, TAL semantics give %r" % (text[:400], i, got[i:i + 2], want[i:i + 2]),
                           {"template": text, "output": real[:800]}))
+    elif not fails:
+        vcase = dict(case, ctx=variant_ctx(case["ctx"]))
+        want3 = talgen.model_tokens(expand_model(vcase))
+        got3 = talgen.tokenise(expand_real.third)
+        if got3 != want3:
+            i = next((k for k, (a, b_) in enumerate(zip(got3, want3)) if a != b_), min(len(got3), len(want3)))
+            fails.append(Fail("later-expansion-differs:" + _classify(case, got3, want3, i),
+                              "template %r, compiled once and expanded a third time with other data: token %d is %r, TAL semantics give %r"
+                              % (text[:400], i, got3[i:i + 2], want3[i:i + 2]), {"template": text, "output": expand_real.third[:800]}))
     return fails
 
 
